@@ -3,6 +3,7 @@ package dvsim
 import (
 	"fmt"
 	"os"
+	"runtime"
 	"sort"
 	"strings"
 	"testing"
@@ -256,6 +257,9 @@ type settlePoint struct {
 	faces    []map[int]uint64    // per router: neighbour index -> current face id of that link end
 	announce []map[string]bool   // ground truth per router
 	settled  time.Duration       // time from the last event of the step to the last observed change
+	advChg   []int               // per router: advertisement changes seen on the wire during this step
+	forest   bool                // no cycle in the union of all topologies that existed during this step
+	topoEvs  int                 // link/router events of this step
 	inflight int
 }
 
@@ -266,6 +270,7 @@ type simResult struct {
 	counts     map[string]int
 	adverts    int
 	resnap     int
+	bubbleErr  string // the bubble could not end: goroutines of the routers blocked for ever
 	classes    map[string]bool
 	ops        int           // prefix operations issued so far
 	drained    time.Duration // extra settling time spent waiting for operation logs to be fetched
@@ -291,6 +296,23 @@ func (c Case) modeOf(a, b int) int {
 // runSim executes the case once (inside a bubble) under the given schedule.
 func runSim(t *testing.T, c Case, sched Sched) (res simResult) {
 	res.classes = map[string]bool{}
+	defer func() {
+		// synctest panics when the bubble cannot end (goroutines blocked for ever)
+		if r := recover(); r != nil {
+			buf := make([]byte, 4<<20)
+			buf = buf[:runtime.Stack(buf, true)]
+			var blocked []string
+			for _, g := range strings.Split(string(buf), "\n\n") {
+				if strings.Contains(g, "synctest bubble") && !strings.Contains(g, "runSim") {
+					blocked = append(blocked, g)
+				}
+			}
+			res.bubbleErr = fmt.Sprintf("%v; goroutines left in the bubble:\n%s", r, strings.Join(blocked, "\n\n"))
+			if len(res.bubbleErr) > 6000 {
+				res.bubbleErr = res.bubbleErr[:6000]
+			}
+		}
+	}()
 	synctest.Test(t, func(*testing.T) {
 		nw := newNetwork(c.N, sched)
 		late := map[int]bool{}
@@ -333,7 +355,7 @@ func runSim(t *testing.T, c Case, sched Sched) (res simResult) {
 			// still working through a long operation log (or has a fetch in flight) gets the
 			// time that needs -- bounded by the number of operations issued so far times the
 			// longest round trip -- before the tables are judged.
-			rtt := time.Duration(2*(c.N-1)*sched.MaxDelay+20) * time.Millisecond
+			rtt := time.Duration(2*(c.N-1)*(sched.MaxDelay+1)+20) * time.Millisecond
 			drain := 10*time.Second + time.Duration(res.ops)*rtt
 			for spent := time.Duration(0); spent < drain && (nw.inFlight() > 0 || nw.behind()); spent += 500 * time.Millisecond {
 				nw.runFor(500 * time.Millisecond)
@@ -341,21 +363,57 @@ func runSim(t *testing.T, c Case, sched Sched) (res simResult) {
 			}
 			res.points = append(res.points, nw.observe(step, lastEvent))
 		}
+		union := map[[2]int]bool{}
+		addUnion := func() {
+			for a, nb := range nw.adjacency() {
+				for _, b := range nb {
+					union[lkey(a, b)] = true
+				}
+			}
+		}
+		finish := func(topoEvs int) {
+			var es [][2]int
+			for e := range union {
+				es = append(es, e)
+			}
+			all := make([]bool, c.N)
+			for i := range all {
+				all[i] = true
+			}
+			sp := &res.points[len(res.points)-1]
+			sp.forest = !hasCycle(adjOf(c.N, es), all)
+			sp.topoEvs = topoEvs
+			union = map[[2]int]bool{}
+			addUnion()
+		}
+		addUnion()
 		settle(0, c.Chaos)
+		finish(0)
 		for si, st := range c.Steps {
+			topoEvs := 0
 			for _, ev := range st.Evs {
 				nw.apply(c, ev, &res)
+				if ev.K == "rmlink" || ev.K == "addlink" || ev.K == "rmrouter" || ev.K == "addrouter" {
+					topoEvs++
+				}
+				addUnion()
 				if ev.Gap > 0 {
 					nw.runFor(time.Duration(ev.Gap) * time.Millisecond)
 				}
 			}
 			lastEvent = nw.since()
 			settle(si+1, st.Chaos)
+			finish(topoEvs)
 		}
 		// teardown: every router must stop, every goroutine must end
 		for i := range nw.nodes {
 			nw.stopRouter(i)
 		}
+		// Goroutines of a stopped router may still sit in a retry back-off (at most 2 s, then
+		// a 10 ms debounce; their next Express fails and they end). Virtual time stops when
+		// this function returns, so give them that time here.
+		time.Sleep(5 * time.Second)
+		synctest.Wait()
 		nw.mu.Lock()
 		res.advertErr = nw.advertViolation
 		res.harnessErr = nw.harnessErr
@@ -485,6 +543,10 @@ func (nw *network) observe(step int, lastEvent time.Duration) settlePoint {
 	}
 	sp.topoKey = strings.Join(topo, ",")
 	sp.settled = nw.lastChange - lastEvent
+	for i := range nw.nodes {
+		sp.advChg = append(sp.advChg, nw.advChanges[i])
+	}
+	nw.advChanges = map[int]int{}
 	nw.mu.Unlock()
 	for _, n := range nw.nodes {
 		if !n.up {
